@@ -37,6 +37,7 @@ def coq_arm(t):
 def coq_rty(t):
     k = t[0]
     if k == "unit": return "RUnit"
+    if k == "optunit": return "(RRes ArmUnit ArmUnit)"      # Option<()> crosses as {is_ok}, like Result<(), ()>
     if k in ("prim", "enum", "struct"): return f"(RV {coq_vty(t)})"
     return {"obox": "RBox", "oboxopt": "ROptBox", "orefret": "RRef", "orefopt": "ROptRef", "ordering": "ROrd"}.get(k) or \
         (f"(ROpt {cbool(t[1] == 'dipl')} {coq_vty(t[2])})" if k == "opt" else f"(RRes {coq_arm(t[1])} {coq_arm(t[2])})")
